@@ -45,6 +45,15 @@ CHECKS = {
  "C13": dict(cat="exploration", ref="6/C13", tech="post-condition monitor on bundles: closure over the library call graph computed by the reference parser, verbatim comparison of bundled procedures with the library text, user text comparison",
    text="bundle structure (root last, sorted, unique, exactly the RUN-closure), placeholder substitution and preservation of the user's procedure are checked for programs with hostile literals/DATA/comments, nine procedure names and three string sizes",
    note="call graph = RUN statements as parsed (strings, DATA, comments excluded); comment text is not protected by the property"),
+ "C08": dict(cat="exploration", ref="6/C08", tech="metamorphic monitor over layouts of one token list (canonical / minimal / random / single-gap sweep / ? / line ends / NUL) on the real convert(), with single-gap localisation for diagnosis",
+   text="all layouts of a program must be refused alike or give byte-identical output; content spans must reappear exactly; failures are localised to one token boundary, whose token classes form the signature",
+   note="boundary classes (hard / none / required / soft / literal-internal) come from the renderer in vlib/cbref/ast.py"),
+ "C09": dict(cat="exploration", ref="6/C09", tech="identifier monitor: identifiers read off the reference parser's tree of convert() output at generator-known positions, compared with the Color BASIC identity function",
+   text="all 962 one/two-character names in four kinds and nine positions (exhaustive), plus sampled pair programs for longer names; identifiers must be exactly first-two-characters + suffix + arr_ prefix, equal iff Color BASIC equates the names, and never a generated name",
+   note="BASIC09 reserved two-letter names are skipped as the README directs"),
+ "C11": dict(cat="exploration", ref="6/C11", tech="metamorphic monitor over all 32 option combinations (pairs at Hamming distance 1 vs documented delta) and CLI-vs-convert byte comparison with an audit hook on file opens",
+   text="for each program all option combinations are converted; each single-option change must produce exactly its documented delta; decb_to_b09.start(argv) must write convert(text, mapped options, procname=stem) with CR line ends and touch no other file",
+   note="documented deltas: DESIGN.md section 6/C11"),
 }
 
 def main():
